@@ -26,7 +26,7 @@ pub fn ro_challenge(bytes: &[u8]) -> JFr {
     }
 }
 
-fn ser3(a: &G, z: &JFr, v: &JFr) -> Vec<u8> {
+pub fn ser3(a: &G, z: &JFr, v: &JFr) -> Vec<u8> {
     let mut b = Vec::new();
     a.serialize_uncompressed(&mut b).unwrap();
     z.serialize_uncompressed(&mut b).unwrap();
